@@ -254,12 +254,7 @@ func srvScenario(name string, p srvProto) *Scenario {
 		if s.AllowStall {
 			s.StallPermille = 15
 		}
-		switch t.Weighted(3, 2, 1) {
-		case 1:
-			s.SwitchNum, s.SwitchDen = 1, 2
-		case 2:
-			s.SwitchNum, s.SwitchDen = 1, 20
-		}
+		s.Probe("policy-" + pickPolicy(s))
 		st.start(tier)
 		return func(res simrt.RunResult) []simrt.Violation {
 			v := &vio{}
